@@ -130,6 +130,13 @@ def conv_list(thorough):
     return q + (x if thorough else []), x
 
 
+def sub_list():
+    """(index type, pattern, keep mask) for submdspan_extents: every mask of full_extent / index slices"""
+    pats = [("i32", p) for p in [()] + masks_over([(3,), (2, 3), (2, 3, 4)]) + [(0, 3), (4, 4, 4, 4), (2, -1, 4, -1)]]
+    pats += [("u8", (2, -1, 4)), ("i64", (-1, 3)), ("u16", (-1, -1, -1))]
+    return [(it, p, m) for it, p in pats for m in range(2 ** len(p))]
+
+
 def span_ct_list():
     """(static extent or -1, op, Offset, Count or -1) for span of length 0..6"""
     out = []
@@ -154,7 +161,7 @@ NEXT = 3          # translation units for the extents-only instantiations
 
 
 def inst_hash():
-    return hashlib.sha256(repr((type_list(True), map_type_list(True), conv_list(True), span_ct_list(), NMAP, NEXT)).encode()).hexdigest()[:16]
+    return hashlib.sha256(repr((type_list(True), map_type_list(True), conv_list(True), span_ct_list(), sub_list(), NMAP, NEXT)).encode()).hexdigest()[:16]
 
 
 def emit_inst(f):
@@ -192,6 +199,10 @@ def emit_inst(f):
     section("C19_MAP", map_type_list(True), map_line)
     section("C19_CONV", conv_list(True), lambda t: 'C19_CONV("%s<%s:%s<%s", (etl::extents<%s%s>), (etl::extents<%s%s>))\n'
             % (t[0], t[1], pat_str(t[2]), pat_str(t[3]), CTYPE[t[0]], targs(t[2]), CTYPE[t[1]], targs(t[3])))
+    f.write("#ifdef C19_SUB\n")
+    for it, p, m in sub_list():
+        f.write('C19_SUB("%s:%s:%d", %d, %s%s)\n' % (it, pat_str(p), m, m, CTYPE[it], targs(p)))
+    f.write("#endif\n")
     f.write("#ifdef C19_SPAN\n")
     for se, op, o, c in span_ct_list():
         f.write('C19_SPAN("%d:%s:%d:%d", %s, %d, %s, %s)\n'
@@ -288,6 +299,7 @@ THEOREMS = {
                             "stride_eq_contiguous", "stride_converting_ctors", "extents_eq_iff", "mdspan_size_empty_eq",
                             "mdspan_subscript_eq", "mdarray_to_mdspan_eq")],
     "conv": [P + "conv_extent_eq", P + "extents_eq_iff"],
+    "sub": [P + "submdspan_extents_eq"],
     "span": [P + x for x in ("subspan_eq", "subspanT_eq", "first_eq", "last_eq")],
     "stride_members": [P + "stride_required_span_size_eq", P + "stride_is_exhaustive_eq"],
 }
@@ -360,6 +372,13 @@ def generate(tier, seed):
     # ---- layout_stride::required_span_size / is_exhaustive alone (they were undefined before the fix): a few shapes
     for (p, vals, strs) in [((2, 3), (2, 3), (3, 1)), ((-1, -1), (2, 3), (1, 2)), ((-1, 3, -1), (2, 3, 4), (1, 8, 2))]:
         add("stride_members it=i32 pat=%s ext=%s str=%s" % (pat_str(p), fmt_list(vals), fmt_list(strs)), "stride_members")
+    # ---- submdspan_extents: every keep mask x every dynamic value vector
+    for it, p, m in sub_list():
+        for vals in dyn_choices(rnd, p, True, 0):
+            if max(vals + (0,)) > it_max(it):
+                continue
+            keep = [(m >> j) & 1 for j in range(len(p))]
+            add("sub it=%s pat=%s ext=%s keep=%s" % (it, pat_str(p), fmt_list(vals), fmt_list(keep)), "sub/r%d" % len(p))
     # ---- converting constructor
     for a, b, dp, sp in conv_list(THOROUGH_BUILD)[0]:
         # a position that is static on either side has that value (requires-clause / precondition)
@@ -427,6 +446,8 @@ def nontrivial(case, rows):
         return "off=[" in r.spec and "," in r.spec.split("off=[")[1].split("]")[0]
     if ln.startswith("ext"):
         return "pat=[]" not in ln
+    if ln.startswith("sub"):
+        return "1" in ln.split("keep=")[1]
     if ln.startswith("conv"):
         return "pat=[]" not in ln and "-1" in ln.split("pat=")[1].split(" ")[0]
     if ln.startswith("span"):
@@ -450,7 +471,8 @@ TECHNIQUE = ("Lean 4 proof: hand model of extents / layout mappings / span arith
              "correspondence run over template instantiations")
 LEVEL_TEXT = ("extents (constructors, converting constructor, extent, operator==, fwd/rev products), layout_left / layout_right / "
               "layout_stride / layout_transpose mappings (operator(), stride, required_span_size, is_exhaustive, operator== "
-              "and the converting constructors of layout_stride), mdspan / mdarray element access, size, empty, "
+              "and the converting constructors of layout_stride), submdspan_extents for full_extent / index slices, mdspan / "
+              "mdarray element access, size, empty, "
               "operator[](array|span), to_mdspan, container_size and span first/last/subspan are modelled clause by clause "
               "with checked array accesses and explicit index_type casts. Lean 4 proves for every rank, every extents vector "
               "and every static/dynamic pattern (no bound) that the model never leaves an array, that the offset of an "
@@ -460,18 +482,34 @@ LEVEL_TEXT = ("extents (constructors, converting constructor, extent, operator==
               "uniqueness precondition), that strides are the partial products, that layout_stride::is_exhaustive holds "
               "exactly when the strides are a permutation of a contiguous layout and exactly when every offset below "
               "required_span_size is hit, that mdspan/mdarray access over all four layouts reads exactly buffer[offset], and "
-              "that span first/last/subspan denote (l.drop off).take cnt with the standard's static extent. The model is "
+              "that submdspan_extents keeps exactly the kept dimensions with their static extents, and that span "
+              "first/last/subspan denote (l.drop off).take cnt with the standard's static extent. The model is "
               "tied to the current source on every run by executing model and implementation on the same cases (every "
               "pattern x extents 0..4 for rank 0-3, rank 4 by masks, eight index types, padded/permuted strides, all span "
               "argument pairs) under ASan/UBSan.")
 LEVEL_NOTE = ("Trusted: Lean kernel + propext/Classical.choice/Quot.sound; the hand model's fidelity outside the explored "
               "inputs; g++-12/ASan; the C-array enumeration oracle and std::span for spec validation. Theorems about the "
-              "wrapped index_type arithmetic assume the standard's representability precondition (Fits). Members listed in "
+              "wrapped index_type arithmetic assume the representability precondition `Fits`: the product of EVERY run of "
+              "consecutive extents is representable in index_type. For shapes without a zero extent this is the standard's "
+              "precondition (size of the index space representable); for shapes WITH a zero extent it is stronger (the "
+              "standard only needs size 0, while fwd/rev products of the other extents may wrap in the code): such shapes "
+              "with unrepresentable partial products are outside the theorems and the generator. `FitsStride` (layout_stride) "
+              "asks for every extent, every stride and required_span_size representable, as [mdspan.layout.stride.cons]. "
+              "Span: the model returns a precondition error for Count > size() where the code has no run-time check. "
+              "Members listed in "
               "coverage.correspondence_only are compared on every run but have no theorem.")
 CORRESPONDENCE_ONLY = [
     "layout_transpose::mapping::is_always_exhaustive / is_exhaustive / is_unique / is_strided (and the same members of "
     "mdspan over it): they forward to the constant members of the nested layout_left / layout_right mapping; observed by "
     "the harness (exh= field of the transposed lines), not modelled beyond the constant",
+    "submdspan_extents with index-pair slices (run-time bounds) and strided_slice specifiers: the former does not compile "
+    "(the builder appends no value for the new dynamic extent: constructor arity), the latter is a static_assert in the "
+    "source; neither is modelled or exercised (submdspan.hpp itself is commented out in the library); full_extent and "
+    "index slices are modelled, exercised (`sub` lines) and proved (submdspan_extents_eq)",
+    "mdarray constructors other than mdarray(mapping) with a size-constructible container: (extents, value), "
+    "(mapping, value), (extents | mapping, container const& | container&&), the array-container branch (`return {}` / "
+    "value_to_array), the pack and extents forms, swap, extract_container and the mdspan conversion operators are neither "
+    "modelled nor exercised",
     "mdspan::extents() and mdarray::size(): observed by the harness and folded into the md= / mda= fields (extents() "
     "through extents::operator==, which has the theorem extents_eq_iff)",
 ]
